@@ -3,6 +3,7 @@ package c18
 import (
 	"errors"
 	"fmt"
+	"math"
 	"reflect"
 	goruntime "runtime"
 	"strings"
@@ -46,6 +47,9 @@ type haltRich struct {
 	Pending []string
 }
 
+// haltNaN is comparable but not equal to itself.
+type haltNaN struct{ f float64 }
+
 type haltErrStruct struct{ msg string }
 
 func (h haltErrStruct) Error() string { return h.msg }
@@ -82,6 +86,9 @@ var intPayloads = []intPayload{
 	{name: "int", primitive: true, jsText: "number:42", jsCanon: "d:42", make: func(*otto.Otto) (interface{}, bool) { return 42, false }},
 	{name: "bool", primitive: true, jsText: "boolean:true", jsCanon: "b:1", make: func(*otto.Otto) (interface{}, bool) { return true, false }},
 	{name: "float64", primitive: true, jsText: "number:1.5", jsCanon: "d:1.5", make: func(*otto.Otto) (interface{}, bool) { return 1.5, false }},
+	// NaN is not equal to itself: a halt recognised by comparing values would miss it
+	{name: "nan", primitive: true, jsText: "number:NaN", jsCanon: "d:NaN", make: func(*otto.Otto) (interface{}, bool) { return math.NaN(), false }},
+	{name: "struct_nan", make: func(*otto.Otto) (interface{}, bool) { return haltNaN{math.NaN()}, false }},
 	{name: "otto_value", exception: true, make: func(vm *otto.Otto) (interface{}, bool) { return vm.MakeCustomError("Halt", "stop"), false }},
 	{name: "otto_error", exception: true, make: func(*otto.Otto) (interface{}, bool) { return scratchRangeError, false }},
 }
@@ -94,7 +101,7 @@ func runInterruptValue(r *engine.Run) {
 	r.Bound("panic_values", strings.Join(names, ","))
 	r.Bound("programs", fmt.Sprintf("%d wrappers (depth 1; depth 2 thorough) x bodies asg, throw_tostring", len(wrappers)))
 	// the quick tier keeps one value per way tryCatchEvaluate / catchPanic can treat it
-	quickValues := map[string]bool{"error_pointer": true, "struct_pointer": true, "uncomparable_struct": true, "nil": true, "string": true, "int": true, "otto_value": true, "otto_error": true}
+	quickValues := map[string]bool{"nan": true, "struct_nan": true, "error_pointer": true, "struct_pointer": true, "uncomparable_struct": true, "nil": true, "string": true, "int": true, "otto_value": true, "otto_error": true}
 	viaToString := map[string]bool{"error_pointer": true, "string": true, "uncomparable_struct": true}
 	deep := map[string]bool{"string": true, "uncomparable_struct": true}
 	r.Bound("depth2_values_thorough", "string, uncomparable_struct")
@@ -126,6 +133,91 @@ func runInterruptValue(r *engine.Run) {
 					continue
 				}
 				for k := 0; k < ref.n; k++ {
+					key := fmt.Sprintf("%s|v%d.%s|%d", p.key, pi, pay.name, k)
+					if !wantCase(r, key) {
+						continue
+					}
+					r.Begin(key)
+					checkInterruptValue(r, p, ref, pay, k, key)
+					r.End()
+					r.Tree(1, 1)
+				}
+			}
+		}
+	}
+}
+
+// ---------------------------------------------------------------------------
+// Polling SITE as a dimension: every statement form that polls - each loop kind
+// with an empty block / no body / a single empty statement / a non-empty body,
+// with and without test and update, labelled - is the place the interrupt is
+// delivered at (every step k <= siteSteps of the never-ending loop, so each of
+// the loop's polling points is hit several times), for the panic values
+// {string, NaN, error pointer, uncomparable struct} and the try-shape, call,
+// native-callback, labelled-loop and with wrappers.
+// ---------------------------------------------------------------------------
+
+const siteSteps = 26
+
+var siteBodies = []body{
+	bodyForBlk, bodyForEmp, bodyWhile, bodyDo,
+	{name: "for_test_block", src: `for(;true;){}`, nonterm: true},
+	{name: "for_update_block", src: `for(i0 = 0;;i0++){}`, nonterm: true},
+	{name: "for_block_empty_stmt", src: `for(;;){ ; }`, nonterm: true},
+	{name: "for_nonempty", src: `for(;;){ s0 = 1; }`, nonterm: true},
+	{name: "labelled_for_block", src: `M0: for(;;){}`, nonterm: true},
+	{name: "labelled_for_continue", src: `M0: for(;;){ continue M0; }`, nonterm: true},
+	{name: "while_empty_stmt", src: `while(true);`, nonterm: true},
+	{name: "do_empty_stmt", src: `do ; while(true);`, nonterm: true},
+	{name: "for_in_call", src: `sf = function(){ for(;;){} }; sf();`, nonterm: true},
+}
+
+var siteWrappers = []string{"try_c.body", "try_c.catch", "try_f.body", "try_cf.body", "try_cf.catch", "try_cf.fin", "fcall", "forEach", "lfor", "with"}
+
+var siteValues = []string{"string", "nan", "error_pointer", "uncomparable_struct"}
+
+func runInterruptSites(r *engine.Run) {
+	r.Bound("site_bodies", fmt.Sprint(len(siteBodies)))
+	r.Bound("site_wrappers", strings.Join(siteWrappers, ","))
+	r.Bound("site_values", strings.Join(siteValues, ","))
+	r.Bound("site_steps", fmt.Sprintf("k <= %d", siteSteps))
+	for _, wn := range siteWrappers {
+		wi := -1
+		for i, w := range wrappers {
+			if w.name == wn {
+				wi = i
+			}
+		}
+		if wi < 0 {
+			r.HarnessError("no wrapper " + wn)
+			return
+		}
+		for _, b := range siteBodies {
+			p := makeProg([]int{wi}, b)
+			p.key = "site:" + p.key
+			if !owns(r, p.key) {
+				continue
+			}
+			r.Begin(p.key + "|reference")
+			ref, err := reference(p, r.Thorough())
+			r.End()
+			if err != nil {
+				r.HarnessError("runtime setup failed: " + err.Error())
+				return
+			}
+			if !ref.cut {
+				r.HarnessError("site body terminated: " + p.key)
+				continue
+			}
+			for pi, pay := range intPayloads {
+				use := false
+				for _, v := range siteValues {
+					use = use || v == pay.name
+				}
+				if !use {
+					continue
+				}
+				for k := 0; k <= siteSteps && k < ref.n; k++ {
 					key := fmt.Sprintf("%s|v%d.%s|%d", p.key, pi, pay.name, k)
 					if !wantCase(r, key) {
 						continue
@@ -189,7 +281,7 @@ func checkInterruptValue(r *engine.Run, p *prog, ref *refRun, pay intPayload, k 
 	}
 	if exp != obs {
 		aux := map[string]string{"kind": "interrupt-value", "payload": pay.name, "primitive": b01(pay.primitive), "in_tce": b01(e.delivTCE),
-			"in_uncaught": b01(e.delivUnc), "dropped_text": b01(droppedByUncaughtString(e)),
+			"continued_to_cap": b01(e.out.exited), "in_uncaught": b01(e.delivUnc), "dropped_text": b01(droppedByUncaughtString(e)),
 			"delivered": "bad", "panicked": b01(e.out.panicked), "surfaced": "0", "rest": "dirty"}
 		if e.delivery(e.out.gid) == deliveredWant {
 			aux["delivered"] = "ok"
@@ -231,9 +323,30 @@ func identicalValue(got, want interface{}) bool {
 	case tg.Kind() == reflect.Func:
 		return reflect.ValueOf(got).Pointer() == reflect.ValueOf(want).Pointer()
 	case tg.Comparable():
-		return got == want
+		if got == want {
+			return true
+		}
+		// values that are not equal to themselves (NaN, structs holding NaN): same bits
+		return got != got && want != want && reflect.DeepEqual(fmt.Sprintf("%#v", got), fmt.Sprintf("%#v", want))
 	}
 	return reflect.DeepEqual(got, want)
+}
+
+// sigInterruptNaNCaught is sigInterruptPrimitiveCaught restricted to the NaN value
+// (known finding F-C18-006: the halt in flight is recognised by value equality).
+func sigInterruptNaNCaught(m *engine.Mismatch) bool {
+	a := m.Aux
+	if a == nil || a["payload"] != "nan" {
+		return false
+	}
+	if sigInterruptPrimitiveCaught(m) {
+		return true
+	}
+	// the thrown NaN left a catch block whose finally clause is the never-ending
+	// body: the script visibly continued (it ran until the step cap) but no marker
+	// could record the value
+	return a["kind"] == "interrupt-value" && a["in_tce"] == "1" && a["delivered"] == "ok" && a["panicked"] == "0" &&
+		a["continued_to_cap"] == "1" && a["rest"] == "clean"
 }
 
 // sigInterruptPrimitiveCaught accepts exactly: the interrupt function panicked with a
